@@ -4,7 +4,7 @@
 From Coq Require Import ZArith List String Ascii Bool Permutation.
 From Gen Require Import Elements TokenTables SmartsTables.
 From Model Require Import PyBase Graph PeriodicTable Tokenize Smarts Query.
-From Proofs Require Import QueryProofs TokenizeProofs SmartsProofs.
+From Proofs Require Import QueryProofs TokenizeProofs SmartsProofs SmartsRoundtrip.
 Import ListNotations.
 Open Scope Z_scope.
 
@@ -237,12 +237,22 @@ Proof. exact bond_spelling_rejected. Qed.
 Print Assumptions C08_bond_spelling_rejected.
 
 (* ---------------------------------------------------------------------------------------------------------------- *)
-(* query_roundtrip, PARTIAL: parse (spell p) = p is shown for a finite family of 7200 canonical records only (all
-   combinations of 2 isotopes, 5 element spellings, 3 stereo marks, 5 charges, 12 primitive configurations, masked, mapped);
-   the statement for ALL records of the documented subset is not proved (search: harness/checks/C08.py reads generated
-   canonical bodies with an independent regular expression) *)
-Theorem C08_query_roundtrip_partial :
-  Z.of_nat (List.length rt_family) = 7200 /\
-  forallb (fun p => pyres_eqb parsed_eqb (query_parse (spell_query p)) (Ok p)) rt_family = true.
-Proof. exact query_roundtrip_partial. Qed.
-Print Assumptions C08_query_roundtrip_partial.
+(* query_roundtrip: for EVERY record p of the documented subset -
+     isotope >= 0; charge in +-1..+-4 or absent; mapping >= 1; a non-empty element list of symbols (letters) and #numbers;
+     neighbours / hydrogens / heteroatoms / ring sizes / hybridisations absent or non-empty lists of non-negative numbers;
+     not-in-ring = the integer 0; aromatic = the integer 4 -
+   parsing the canonical spelling  [isotope]elements[@|@@][charge];D..;h..;r..|!R;x..;z..|a;M:map  gives p back *)
+Theorem C08_query_roundtrip : forall p, canonical p -> query_parse (spell_query p) = Ok p.
+Proof. exact query_roundtrip. Qed.
+Print Assumptions C08_query_roundtrip.
+
+Theorem C08_query_roundtrip_example :
+  canonical rt_example /\ spell_query rt_example = s2l "13C,#7@+;D1,D2;h0;r5,r6;x1;z1,z2;M:7".
+Proof. exact query_roundtrip_example. Qed.
+Print Assumptions C08_query_roundtrip_example.
+
+(* every valued primitive, for ALL value lists: D h r x z followed by its numbers, alternatives joined by commas *)
+Theorem C08_prim_step_spelled : forall t vs out, In t ["D"; "h"; "r"; "x"; "z"]%char -> vs <> [] /\ Forall (fun v => 0 <= v) vs ->
+  prim_step out (spell_prim t vs) = Ok (set_prim out t vs).
+Proof. exact prim_step_spelled. Qed.
+Print Assumptions C08_prim_step_spelled.
